@@ -5,10 +5,13 @@ pub mod common;
 pub mod c01;
 pub mod c02;
 pub mod c03;
+pub mod c04;
 pub mod c05;
 pub mod c08;
+pub mod c11;
 pub mod c12;
 pub mod c15;
+pub mod c19;
 pub mod c13;
 pub mod meta;
 pub mod values;
@@ -19,6 +22,7 @@ pub fn run(prop: &str, ctx: &Ctx) -> Option<Report> {
         "C01" => c01::run(ctx),
         "C02" => c02::run(ctx),
         "C03" => c03::run(ctx),
+        "C04" => c04::run(ctx),
         "C05" => c05::run(ctx),
         "C06" => values::run_c06(ctx),
         "C07" => values::run_c07(ctx),
@@ -28,7 +32,9 @@ pub fn run(prop: &str, ctx: &Ctx) -> Option<Report> {
         "C13" => c13::run(ctx),
         "C14" => meta::run_c14(ctx),
         "C10" => stmt::run_c10(ctx),
+        "C11" => c11::run(ctx),
         "C12" => c12::run(ctx),
+        "C19" => c19::run(ctx),
         "C16" => stmt::run_c16(ctx),
         "C17" => stmt::run_c17(ctx),
         _ => return None,
